@@ -141,6 +141,8 @@ pub fn check_print(c: &PrintCase) -> CaseResult {
     let fd = target_fd(c.kind);
     let cap = capture(fd, || {
         verif::plan(rules);
+        // every write moves at least one byte of the text: more calls than bytes is a loop
+        verif::set_call_limit(exp.len() + 64);
         verif::log_begin();
         let r = no_panic(op, || invoke(c));
         let log = verif::log_end();
